@@ -49,7 +49,13 @@ theorem loop_conditions :
     tocCompares = ["self.nbr_of_items > 0", "ident != self.requested_index", "self.requested_index < self.nbr_of_items - 1"] ∧
     memCompares = ["self.nbr_of_mems > 0", "self.nbr_of_mems - 1 >= self._fetch_id"] ∧
     extCompares = ["self._req_param == var_id", "self._count == 0"] ∧
-    paramAllUpdatedCond = ["self._check_if_all_updated() and (not self.is_updated)"] := by decide
+    paramAllUpdatedCond = ["self._check_if_all_updated()", "not self.is_updated"] := by decide
+/-- how completion of the parameter download is decided: `_check_if_all_updated` WALKS the table — every element must
+have a value in `param.values` (a per-parameter set, not a count) — and `_param_updated` stores exactly there -/
+theorem completion_test_walks_the_table :
+    checkAllUpdatedBody = ["for g in self.toc.toc:\n    if g not in self.values:\n        return False\n    for n in self.toc.toc[g]:\n        if n not in self.values[g]:\n            return False", "return True"] := by rfl
+theorem param_updated_stores :
+    paramUpdatedStores = ["self.values[element.group] = {}", "self.values[element.group][element.name] = value_s"] := by rfl
 /-- what `disconnected` / `connection_requested` reset in the parameter subsystem -/
 theorem param_resets : paramDisconnected = ["self.param_updater.close()", "self.toc = Toc()", "self.values = {}"] ∧
     paramConnectionRequested = ["self.is_updated = False", "self.toc = Toc()", "self.values = {}"] ∧
@@ -77,6 +83,10 @@ theorem repaired_D21 : tocFetcherAbortsOnDisconnect = true ∧ extFetcherAbortsO
     Sys.init.c.fixD21 = true := by decide
 /-- an aborted TocFetcher that is still in the dispatcher's snapshot cannot run its finished callback -/
 theorem aborted_fetcher_cannot_finish : abortedTocFetcherCannotFinish = true ∧ Sys.init.c.fixAbort = true := by decide
+/-- D28: the completion test of the parameter download is evaluated only once connected (the table is complete) -/
+theorem repaired_D28 : allUpdatedRequiresConnected = true ∧ Sys.init.c.fixUpd = true := by decide
+/-- D29: the extended-type fetcher only accepts answers to its own request (command byte checked) -/
+theorem repaired_D29 : extCbChecksCommand = true ∧ Sys.init.c.fixExtCmd = true := by decide
 /-- D26: the first-packet callback ignores a packet whose link was closed by an earlier callback -/
 theorem repaired_D26 : firstPacketCbChecksLink = true ∧ Sys.init.c.fixFirst = true := by decide
 
@@ -126,7 +136,10 @@ theorem connected_only_when_tables_complete (d : Dev) (ops : List Op) (op : Op)
   rw [step_eq] at hm ⊢
   exact hc.2.2.1 hop (stepW_cb_mem _ _ _ _ hm)
 
-/-- **fully_only_when_all_values**: whenever an operation signals `fully_connected`, every parameter has a value. -/
+/-- **fully_only_when_all_values**: whenever an operation signals `fully_connected` — a read reply, or an unsolicited
+value-updated notification for any parameter, at any point of any history that may also contain duplicated / late read
+replies (`Op.inject`) — every parameter of the device's table has a value in `param.values` at that moment (the per-
+parameter SET `vals` is what the completion test walks, not a count), and by `trace_wf` `connected` came before. -/
 theorem fully_only_when_all_values (d : Dev) (ops : List Op) (op : Op)
     (hu : usage d Sys.init (ops ++ [op]) = true) (hop : op.isAct = false) :
     Out.cb .fully ∈ (step d (run d Sys.init ops).1 op).2 →
@@ -255,8 +268,8 @@ example : pot ⟨true, 2, 1, [true, false]⟩ (openLink .ok S.init).1 = 15 := by
 /-! ## The unrepaired code (counterexamples; the same scripts are replayed on the real code by `search()`) -/
 
 /-- the object as the UNREPAIRED code builds it -/
-def unrepairedD1 : Sys := { c := { fixD21 := true, fixAbort := true, fixFirst := true }, w := { fixD1 := false } }
-def unrepairedD21 : Sys := { c := { fixD21 := false, fixAbort := true, fixFirst := true }, w := { fixD1 := true } }
+def unrepairedD1 : Sys := { c := { fixD21 := true, fixAbort := true, fixFirst := true, fixUpd := true, fixExtCmd := true }, w := { fixD1 := false } }
+def unrepairedD21 : Sys := { c := { fixD21 := false, fixAbort := true, fixFirst := true, fixUpd := true, fixExtCmd := true }, w := { fixD1 := true } }
 
 /-- D1: `SyncCrazyflie.open_link`, one packet, link error: the attempt is over, the call is blocked for ever. -/
 theorem sync_open_hangs_counterexample :
@@ -277,7 +290,7 @@ theorem stale_fetcher_counterexample :
 
 /-- an aborted TocFetcher that could still finish (the guard removed): `close_link` from a port callback during the
 dispatch of the packet that completes the parameter TOC: `connected` is delivered after `disconnected`. -/
-def abortedFetcherFinishes : Sys := { c := { fixD21 := true, fixAbort := false, fixFirst := true }, w := { fixD1 := true } }
+def abortedFetcherFinishes : Sys := { c := { fixD21 := true, fixAbort := false, fixFirst := true, fixUpd := true, fixExtCmd := true }, w := { fixD1 := true } }
 
 theorem aborted_fetcher_counterexample :
     usage ⟨true, 0, 0, [false]⟩ abortedFetcherFinishes
@@ -288,12 +301,34 @@ theorem aborted_fetcher_counterexample :
 /-- D26: second connection on the same object, `close_link` from the application's all-packet callback while the first
 packet is dispatched: the re-registered first-packet callback runs afterwards and signals `link_established` after
 `disconnected`. -/
-def unrepairedD26 : Sys := { c := { fixD21 := true, fixAbort := true, fixFirst := false }, w := { fixD1 := true } }
+def unrepairedD26 : Sys := { c := { fixD21 := true, fixAbort := true, fixFirst := false, fixUpd := true, fixExtCmd := true }, w := { fixD1 := true } }
 
 theorem late_first_packet_cb_counterexample :
     usage ⟨true, 0, 0, []⟩ unrepairedD26 [.open .ok, .deliver, .close, .open .ok, .deliverAct .allPkt .close] = true ∧
     wfRun {} (run ⟨true, 0, 0, []⟩ unrepairedD26 [.open .ok, .deliver, .close, .open .ok, .deliverAct .allPkt .close]).2 = none := by
   decide
+
+/-- D28: a value-updated notification for parameter 0 while the parameter TOC is being downloaded (entry 0 of 2
+received): the completion test walks the partial table and `fully_connected` is signalled before `connected`. -/
+def unrepairedD28 : Sys := { c := { fixD21 := true, fixAbort := true, fixFirst := true, fixUpd := false, fixExtCmd := true }, w := { fixD1 := true } }
+
+theorem early_fully_connected_counterexample :
+    usage ⟨true, 0, 0, [false, false]⟩ unrepairedD28
+      [.open .ok, .deliver, .deliver, .deliver, .deliver, .deliver, .deliver, .deliver, .inject (.upd 0)] = true ∧
+    wfRun {} (run ⟨true, 0, 0, [false, false]⟩ unrepairedD28
+      [.open .ok, .deliver, .deliver, .deliver, .deliver, .deliver, .deliver, .deliver, .inject (.upd 0)]).2 = none := by decide
+
+/-- D29: a value-updated notification for the parameter whose extended type is being fetched is taken for the answer:
+`connected` is signalled although the extended type has not been received. -/
+def unrepairedD29 : Sys :=
+  { c := { fixD21 := true, fixAbort := true, fixFirst := true, fixUpd := true, fixExtCmd := false }, w := { fixD1 := true } }
+
+theorem ext_type_confusion_counterexample :
+    let d : Dev := ⟨true, 0, 0, [true]⟩
+    let ops : List Op := [.open .ok, .deliver, .deliver, .deliver, .deliver, .deliver, .deliver, .deliver, .work]
+    usage d unrepairedD29 (ops ++ [.inject (.upd 0)]) = true ∧
+    Out.cb .connected ∈ (step d (run d unrepairedD29 ops).1 (.inject (.upd 0))).2 ∧
+    (step d (run d unrepairedD29 ops).1 (.inject (.upd 0))).1.c.extGot = 0 ∧ d.extIds.length = 1 := by decide
 
 /-- the same script on the repaired model is fine (and `trace_wf` covers every script) -/
 example : (wfRun {} (run ⟨true, 0, 0, [true]⟩ Sys.init staleFetcherOps).2).isSome = true := by decide
